@@ -927,7 +927,7 @@ def predicates(ctx, sc, r, results, violation):
         # (d) selection has no effect: theta * S * total weight
         if sc.get('selfree') and v is not None and op['op'] in ('int1', 'int2'):
             cc = c1 if op['op'] == 'int1' else c2
-            t = parse_records(rec, c1, c2)
+            t = parse_records(rec, c1, c2); check_limits(ctx, sc, op, t, c1, c2)
             S = cc['spectra'][0] if op['op'] == 'int1' else cc['spectra'][0][0]
             ents = [i for i, m in enumerate(rec['mask']) if not m]
             tw = None
@@ -940,18 +940,18 @@ def predicates(ctx, sc, r, results, violation):
                 W = t.pdf2[0][1]; n = len(xs)
                 tw = trapz([trapz([W[i][j] for i in range(n)], xs) for j in range(n)], xs)
                 if op.get('ext', True) and len(t.tl2) == 1:
-                    blk = t.tl2[0]
+                    blk = block2(t)          # the recorded edge / corner integrals, or the ones over the documented regions when the limits deviate
                     symm = not blk['q2low']
                     tw += trapz(blk['q1low'], xs) + trapz(blk['q1high'], xs)
                     tw += trapz(blk['q1low'] if symm else blk['q2low'], xs) + trapz(blk['q1high'] if symm else blk['q2high'], xs)
-                    d = [x['val'] for x in blk['dbl']]
+                    d = [x['val'] if isinstance(x, dict) else x for x in blk['dbl']]
                     tw += d[0] + d[1] + (d[1] if len(d) == 2 else d[2])
             if tw is not None:
                 want = [op['theta'] * S[e] * tw for e in ents]
                 scale = max(abs(x) for x in v + want)
                 if not all(close(a, w, scale) for a, w in zip(v, want)):
-                    violation('selection-free cache: %s = %r but theta*S*(total quadrature weight %r) = %r' % (FN[op['op']], v[0], tw, want[0]),
-                              None, sc, op, {'got': v, 'want': want})
+                    violation('selection-free cache: %s = %r but theta*S*(total quadrature weight %r) = %r (pdf %s, params=%r; %s)' % (
+                        FN[op['op']], v[0], tw, want[0], op.get('pdf1') or op.get('pdf2'), op['params'], cache_desc(sc)), None, sc, op, {'got': v, 'want': want})
                 else:
                     ctx.count('selection-free ok')
                 tol1 = sc.get('total_one')
@@ -972,7 +972,7 @@ def predicates(ctx, sc, r, results, violation):
                             op.get('pdf1') or op.get('pdf2'), op['params'], tw, tol1), None, sc, op, {'total_weight': tw})
         # (e) Vourlaki_mixture = theta * the stated weighted sum of its components, each with the tails of the grid it is integrated over
         if op['op'] == 'vourlaki' and 'vparts' in op and v is not None:
-            t = parse_records(rec, c1, c2)
+            t = parse_records(rec, c1, c2); check_limits(ctx, sc, op, t, c1, c2)
             want = vourlaki_components(op, rec, results, c2, t)
             if want is None:
                 ctx.count('vourlaki components not available')
@@ -995,7 +995,7 @@ def predicates(ctx, sc, r, results, violation):
                     ctx.count('vourlaki components ok')
         # (e') selection has no effect, two caches: theta * S * total weight (C17_selection_free_mixture, C17_selection_free_vourlaki_own_grid_tails)
         if sc.get('selfree') and v is not None and op['op'] in ('mix', 'vourlaki') and c1 and c2 and op.get('ext', True):
-            t = parse_records(rec, c1, c2)
+            t = parse_records(rec, c1, c2); check_limits(ctx, sc, op, t, c1, c2)
             S = c1['spectra'][0]
             ents = [i for i, m in enumerate(rec['mask']) if not m]
             blk = block2(t)
